@@ -7,6 +7,7 @@ Payload {"mode": ...}:
   "handlers" drive send_event_time / send_out_state of the handlers with patched random.uniform / expovariate.
   "runs"     run a shipped configuration with bounding_potential_warning intercepted at every call site.
 """
+import copy
 import math
 import os
 import random
@@ -105,6 +106,13 @@ def run_dom(cfg):
     setting.set_number_of_nodes_per_root_node(1)
     setting.set_number_of_node_levels(1)
     pot, bnd = make_potentials(cfg)
+    orig_pot, orig_bnd = pot, bnd
+    deep = bool(cfg.get("deepcopy"))
+    if deep:
+        # MergedImageCoulombPotential.__deepcopy__ copies the C structure (copy_merged_image_coulomb_potential)
+        pot, bnd = copy.deepcopy(pot), copy.deepcopy(bnd)
+    copy_mismatch = []
+    ncompared = 0
     rng = random.Random(cfg["seed"])
     strata_peaks = cfg.get("peaks") or []
     K = cfg.get("top", 20)
@@ -130,6 +138,13 @@ def run_dom(cfg):
                 t = pot.derivative(vel[d], p, c1, c2)
                 b = bnd.derivative(vel[d], p, c1, c2)
                 neval += 1
+                if deep and neval % 4 == 0:
+                    # a deep copy must report the rates of the configured potential, bit for bit
+                    t0 = orig_pot.derivative(vel[d], p, c1, c2)
+                    b0 = orig_bnd.derivative(vel[d], p, c1, c2)
+                    ncompared += 1
+                    if (f2b(t0) != f2b(t) or f2b(b0) != f2b(b)) and len(copy_mismatch) < 5:
+                        copy_mismatch.append([[f2b(x) for x in p], d, [c1, c2], f2b(t), f2b(b), f2b(t0), f2b(b0)])
                 if not t > 0.0:
                     if t != t:      # NaN from the implementation
                         nviol += 1
@@ -159,7 +174,8 @@ def run_dom(cfg):
                     top.sort(key=lambda x: -x[0])
                     del top[K:]
     setting.reset()
-    return {"neval": neval, "npos": npos, "nviol": nviol, "hist": hist, "residues": residues,
+    return {"deepcopy": deep, "copy_compared": ncompared, "copy_mismatch": copy_mismatch,
+            "neval": neval, "npos": npos, "nviol": nviol, "hist": hist, "residues": residues,
             "max_residue": f2b(max_residue),
             "top": [[("inf" if s == math.inf else f2b(s)), r] for s, r in top] + [["big", r] for _, r in big]
             + [["clean", r] for _, r in clean],
@@ -362,6 +378,9 @@ def make_handler(cfg, case, pots, cells):
     return h, bounding
 
 
+REF = {"pots": None}
+
+
 def one_run(cfg, case, pots, cells, mode, seed):
     pot, bnd = pots
     fam = cfg["family"]
@@ -375,6 +394,13 @@ def one_run(cfg, case, pots, cells, mode, seed):
     try:
         random.seed(seed)
         h, bounding = make_handler(cfg, case, pots, cells)
+        if case.get("deep"):
+            # exactly what Tagger.initialize does for the 2nd..n-th event handler of a tagger
+            h = copy.deepcopy(h)
+        res["deep"] = bool(case.get("deep"))
+        # the potentials the handler really uses (copies, if the handler was deep-copied)
+        pot = h._potential
+        bounding = getattr(h, "_bounding_potential", None)
         wrap_derivative(pot, pot_calls)
         if bounding is not None:
             wrap_derivative(bounding, bnd_calls)
@@ -399,6 +425,15 @@ def one_run(cfg, case, pots, cells, mode, seed):
             res["out"] = flatten(o)
         res["pot_calls"] = pot_calls[npot:]
         res["bnd_calls"] = bnd_calls[nb:]
+        # the same evaluations on independently, freshly constructed potentials of the same configuration
+        ref_pot, ref_bnd = REF["pots"]
+        for c in res["pot_calls"]:
+            c["ref"] = f2b(ref_pot.derivative([b2f(x) for x in c["vel"]], [b2f(x) for x in c["sep"]],
+                                              *[b2f(x) for x in c["charges"]]))
+        if fam in ("leaf", "summed"):
+            for c in res["bnd_calls"]:
+                c["ref"] = f2b(ref_bnd.derivative([b2f(x) for x in c["vel"]], [b2f(x) for x in c["sep"]],
+                                                  *[b2f(x) for x in c["charges"]]))
         if fam.startswith("cell") and bnd_calls[nb:]:
             res["stub_rate"] = bnd_calls[nb]["res"]
     except Exception as e:  # noqa
@@ -447,6 +482,7 @@ def run_handlers(cfg):
     setting.set_number_of_nodes_per_root_node(cfg.get("npr", 1))
     setting.set_number_of_node_levels(1 if cfg.get("npr", 1) == 1 else 2)
     pots = make_potentials(cfg)
+    REF["pots"] = make_potentials(cfg)       # never handed to a handler, never copied
     cells = None
     if cfg["family"].startswith(("cell", "veto")):
         from jellyfysh.activator.internal_state.cell_occupancy.cells.cuboid_periodic_cells import CuboidPeriodicCells
